@@ -6,6 +6,7 @@ import (
 	"encoding/hex"
 	"fmt"
 	"math/big"
+	"strings"
 	"testing"
 
 	"github.com/btcsuite/btcd/btcec"
@@ -344,6 +345,7 @@ func propC14Pool(t *rapid.T) {
 		got  *hdkeychain.ExtendedKey
 		want *ref.XKey
 		how  string
+		dead bool // wiped with Zero(), or sharing memory with a wiped key
 	}
 	seed := rapid.SliceOfN(rapid.Byte(), 16, 64).Draw(t, "seed")
 	wm, rerr := ref.XMaster(seed)
@@ -354,11 +356,15 @@ func propC14Pool(t *rapid.T) {
 		}
 		return
 	}
-	pool := []ent{{gm, wm, "m"}}
+	pool := []ent{{got: gm, want: wm, how: "m"}}
 	ops, parsed, strOnChildOfParsed := 0, 0, false
+	wiped := 0
 	fromParsed := map[int]bool{}
 	check := func(after string) {
 		for i, e := range pool {
+			if e.dead {
+				continue
+			}
 			if err := cmpKey(fmt.Sprintf("key #%d (%s) after %s", i, e.how, after), e.got, e.want); err != nil {
 				t.Fatalf("seed %x: %v", seed, err)
 			}
@@ -371,6 +377,9 @@ func propC14Pool(t *rapid.T) {
 			}
 			pi := rapid.IntRange(0, len(pool)-1).Draw(t, "parent")
 			p := pool[pi]
+			if p.dead {
+				t.Skip("wiped")
+			}
 			i := idxGen().Draw(t, "idx")
 			if !p.want.Priv && i >= ref.H {
 				i -= ref.H
@@ -387,7 +396,7 @@ func propC14Pool(t *rapid.T) {
 			if werr != nil {
 				return
 			}
-			pool = append(pool, ent{gc, wc, fmt.Sprintf("%s/%d", p.how, i)})
+			pool = append(pool, ent{got: gc, want: wc, how: fmt.Sprintf("%s/%d", p.how, i)})
 			fromParsed[len(pool)-1] = fromParsed[pi]
 			ops++
 			check("Child")
@@ -398,11 +407,14 @@ func propC14Pool(t *rapid.T) {
 			}
 			pi := rapid.IntRange(0, len(pool)-1).Draw(t, "key")
 			p := pool[pi]
+			if p.dead {
+				t.Skip("wiped")
+			}
 			n, err := p.got.Neuter()
 			if err != nil {
 				t.Fatalf("Neuter(%s): %v", p.how, err)
 			}
-			pool = append(pool, ent{n, p.want.Neuter(), "N(" + p.how + ")"})
+			pool = append(pool, ent{got: n, want: p.want.Neuter(), how: "N(" + p.how + ")"})
 			fromParsed[len(pool)-1] = fromParsed[pi]
 			ops++
 			check("Neuter")
@@ -410,6 +422,9 @@ func propC14Pool(t *rapid.T) {
 		"string": func(t *rapid.T) {
 			pi := rapid.IntRange(0, len(pool)-1).Draw(t, "key")
 			p := pool[pi]
+			if p.dead {
+				t.Skip("wiped")
+			}
 			if got := p.got.String(); got != p.want.String() {
 				t.Fatalf("String(%s) = %s want %s", p.how, got, p.want.String())
 			}
@@ -419,17 +434,54 @@ func propC14Pool(t *rapid.T) {
 			ops++
 			check("String of " + p.how)
 		},
+		"zero": func(t *rapid.T) {
+			// the wallet wipes every key it has finished with (derive a child, use it, Zero() it, derive the
+			// next one from the same parent): wiping one key must leave all the others what they were.
+			// Neutered copies share memory with their original by design (as in btcd), so only keys made
+			// by Child are wiped here, and copies neutered from a wiped key are retired with it.
+			pi := rapid.IntRange(0, len(pool)-1).Draw(t, "key")
+			p := pool[pi]
+			if p.dead || pi == 0 || strings.HasPrefix(p.how, "N(") || strings.HasPrefix(p.how, "parse(") {
+				t.Skip("not a derived child")
+			}
+			live := 0
+			for _, e := range pool {
+				if !e.dead {
+					live++
+				}
+			}
+			if live <= 2 {
+				t.Skip("keep some keys")
+			}
+			p.got.Zero()
+			pool[pi].dead = true
+			for i := range pool {
+				base := pool[i].how
+				for strings.HasPrefix(base, "N(") && strings.HasSuffix(base, ")") {
+					base = base[2 : len(base)-1]
+				}
+				if base == p.how && pool[i].how != p.how {
+					pool[i].dead = true // N(x), N(N(x)), ...: same memory
+				}
+			}
+			wiped++
+			ops++
+			check("Zero of " + p.how)
+		},
 		"parse": func(t *rapid.T) {
 			if len(pool) >= 12 {
 				t.Skip("pool full")
 			}
 			pi := rapid.IntRange(0, len(pool)-1).Draw(t, "key")
 			p := pool[pi]
+			if p.dead {
+				t.Skip("wiped")
+			}
 			k, err := hdkeychain.NewKeyFromString(p.want.String())
 			if err != nil {
 				t.Fatalf("NewKeyFromString(%s): %v", p.want.String(), err)
 			}
-			pool = append(pool, ent{k, p.want, "parse(" + p.how + ")"})
+			pool = append(pool, ent{got: k, want: p.want, how: "parse(" + p.how + ")"})
 			fromParsed[len(pool)-1] = true
 			parsed++
 			ops++
@@ -442,6 +494,9 @@ func propC14Pool(t *rapid.T) {
 	}
 	if strOnChildOfParsed {
 		labels = append(labels, "string-of-key-descending-from-a-parsed-key")
+	}
+	if wiped > 0 {
+		labels = append(labels, "a-derived-key-wiped-then-more-derivations")
 	}
 	c14.Case(hkey("pool", seed, ops, len(pool)), len(pool) >= 3, labels...)
 }
